@@ -133,7 +133,8 @@ type IdP struct {
 	// JWKSBody / DiscBody, if set, are served verbatim instead of the generated documents.
 	JWKSBody *string
 	DiscBody *string
-	Tag          string
+	Tag      string
+	scheme   string
 }
 
 var idpCounter int64
@@ -152,10 +153,21 @@ func NewIdP(clientID, secret string, now func() time.Time) *IdP {
 	return p
 }
 
+// ServeTLS additionally serves the provider over HTTPS with a certificate issued by ca; its URLs become https.
+func (p *IdP) ServeTLS(ca *CA) {
+	RegisterTLSHandler(p.Host+":443", ca.Leaf(p.Host), p)
+	p.scheme = "https"
+}
+
 // Close removes the provider from the network.
 func (p *IdP) Close() { UnregisterHost(p.Host) }
 
-func (p *IdP) Base() string          { return "http://" + p.Host }
+func (p *IdP) Base() string {
+	if p.scheme != "" {
+		return p.scheme + "://" + p.Host
+	}
+	return "http://" + p.Host
+}
 func (p *IdP) AuthURL() string       { return p.Base() + "/auth" }
 func (p *IdP) TokenURL() string      { return p.Base() + "/token" }
 func (p *IdP) JWKSURL() string       { return p.Base() + "/jwks" }
@@ -536,4 +548,15 @@ func (p *IdP) CurrentRefresh(rt string) (string, bool) {
 		return "", false
 	}
 	return l.Current, true
+}
+
+// PublishExtraKey adds (or replaces) an additional published key; the signing key stays published.
+func (p *IdP) PublishExtraKey(i int) {
+	ks := Keys()
+	k := ks[1+i%3].With(fmt.Sprintf("extra-%d", i%5), "")
+	p.mu.Lock()
+	defer p.mu.Unlock()
+	keys := []*Key{p.SignKey}
+	keys = append(keys, k)
+	p.Keys = keys
 }
